@@ -80,7 +80,15 @@ fn gen_so2_bounds(rng: &mut Xo, angular_bias: bool) -> Option<(f64, f64)> {
 
 fn gen_so3_bounds(rng: &mut Xo, angular_bias: bool) -> Option<([f64; 4], f64)> {
     if angular_bias || rng.chance(0.4) {
-        let c = if rng.chance(0.3) { [0.0, 0.0, 0.0, 1.0] } else { unit_quat(rng) };
+        let mut c = if rng.chance(0.3) { [0.0, 0.0, 0.0, 1.0] } else { unit_quat(rng) };
+        // a quarter of the centres are written with three decimals (norm off 1 by up to 1e-3):
+        // the constructor does not normalise, and every bounds primitive must then use the
+        // centre as stored
+        if rng.chance(0.25) {
+            for x in c.iter_mut() {
+                *x = (*x * 1000.0).round() / 1000.0;
+            }
+        }
         // cones narrower than a hemisphere are convex (a sampler that overshoots them is the
         // only way out), wider ones are not (interpolation can leave them)
         let a = if angular_bias && rng.chance(0.65) { rng.range(0.5 * PI + 0.1, PI - 0.2) } else if angular_bias { rng.range(0.6, 0.5 * PI) } else { rng.range(0.6, PI) };
